@@ -3,6 +3,7 @@ package loadbalancer
 import (
 	"bufio"
 	"context"
+	"errors"
 	"fmt"
 	"net"
 	"net/http"
@@ -19,6 +20,11 @@ import (
 	"github.com/0xReLogic/Helios/internal/ratelimiter"
 	"github.com/0xReLogic/Helios/internal/utils"
 )
+
+// errBackendFailure is returned by proxyRequest when the backend answered with a server error (5xx).
+// The response has already been relayed and recorded; the error only tells the circuit breaker
+// that the proxied request failed.
+var errBackendFailure = errors.New("backend returned a server error")
 
 // Strategy defines the interface for load balancing strategies
 type Strategy interface {
@@ -620,6 +626,10 @@ func (lb *LoadBalancer) ServeHTTP(w http.ResponseWriter, r *http.Request) {
 		err := lb.circuitBreaker.Execute(func() error {
 			return lb.handleRequest(w, r, startTime)
 		})
+		if err == errBackendFailure {
+			// The backend's 5xx response was already relayed and recorded by proxyRequest.
+			return
+		}
 		if err != nil {
 			failureCount, successCount, requestCount := lb.circuitBreaker.Counts()
 			logger.Error().
@@ -642,7 +652,7 @@ func (lb *LoadBalancer) ServeHTTP(w http.ResponseWriter, r *http.Request) {
 		}
 	} else {
 		// Execute without circuit breaker
-		if err := lb.handleRequest(w, r, startTime); err != nil {
+		if err := lb.handleRequest(w, r, startTime); err != nil && err != errBackendFailure {
 			logger.Error().Err(err).Msg("request handling failed")
 		}
 	}
@@ -719,6 +729,9 @@ func (lb *LoadBalancer) proxyRequest(backend *Backend, w http.ResponseWriter, r 
 	// Record metrics and handle passive health checks
 	lb.recordRequestMetrics(backend, rw.statusCode, startTime, r)
 
+	if rw.statusCode >= http.StatusInternalServerError {
+		return errBackendFailure
+	}
 	return nil
 }
 
